@@ -117,8 +117,12 @@ class Tensor:
             inv = transformation.inverse()
             edges.extend((inv.copy(), self) for _ in range(ts[1]))
         diagram = TensorDiagram(*edges)
+        calculated = diagram.calculate()
         result = self.copy()
-        result.array = diagram.calculate().array
+        if calculated.free_indices > self.free_indices:
+            # a collection of transformations applied to fewer objects yields a collection of that shape
+            result = result[(None,) * (calculated.free_indices - self.free_indices)]
+        result.array = calculated.array
         return result
 
     @property
